@@ -668,6 +668,50 @@ func (env *CEnv) call(n *Node) cval {
 	case "layers":
 		v := env.eval(n.Kids[0])
 		return cval{V: StrLit(handlerLayers(env, v.V, 0))}
+	case "sess_after", "sess_has_after", "ghost", "ghost_after":
+		r := env.eval(n.Kids[0])
+		k := env.term(n.Kids[1])
+		ctx := env.ex.reqCtx(env.scratchState(), r.V)
+		stv := env.ex.asTerm(env.scratchState(), env.ex.ctxLookup(env.scratchState(), ctx, "session"))
+		if name == "ghost" || name == "ghost_after" {
+			key := n.Kids[1].S
+			val := App("cs_get", SStr, stv, StrLit("ghost!"+key))
+			if name == "ghost_after" {
+				for _, e := range env.st.Trace {
+					if e.Kind != "Ghost.Set" {
+						continue
+					}
+					if nm, ok := e.Args[0].(*Term); ok {
+						if s, _ := nm.StrVal(); s == key {
+							val = Ite(e.Args[2].(*Term), env.toTerm(e.Args[1]), val)
+						}
+					}
+				}
+			}
+			return cval{V: val}
+		}
+		has := And(Neq(stv, IntLit(0)), App("cs_has", SBool, stv, k))
+		val := Ite(Neq(stv, IntLit(0)), App("cs_get", SStr, stv, k), StrLit(""))
+		for _, e := range env.st.Trace {
+			switch e.Kind {
+			case "Sess.Put":
+				eq := Eq(env.toTerm(e.Args[0]), k)
+				has = Ite(eq, TTrue, has)
+				val = Ite(eq, env.toTerm(e.Args[1]), val)
+			case "Sess.Del":
+				eq := Eq(env.toTerm(e.Args[0]), k)
+				has = Ite(eq, TFalse, has)
+				val = Ite(eq, StrLit(""), val)
+			case "Sess.DelAll":
+				keeps := App("wl_keeps", SBool, env.toTerm(e.Args[0]), k)
+				has = And(has, keeps)
+				val = Ite(keeps, val, StrLit(""))
+			}
+		}
+		if name == "sess_has_after" {
+			return cval{V: has}
+		}
+		return cval{V: val}
 	case "implements":
 		// implements(x, "pkg.Iface"): the dynamic-type predicate the executor uses for x.(pkg.Iface)
 		x := env.term(n.Kids[0])
